@@ -18,7 +18,7 @@
   The pause EFFECTS (streams closed, daemons stopped, nothing handled beyond queued events, nothing handled twice) have
   no theorem here: they are checked by the simulation oracle only.
 -/
-import Kopf.Lemmas.C13_Bridge
+import Kopf.Lemmas.C13_Converge
 namespace Kopf.C13
 
 /-! ## paused ⇔ a live peer of higher or equal priority -/
@@ -529,5 +529,339 @@ theorem withdrawn_stays {u : Int} {i : Identity} {s s1 s' : State} (h1 : step u 
     (hall : ∀ l ∈ ls, (∀ p lt, l ≠ .start i p lt) ∧ (∀ r, l ≠ .foreign i (some r)))
     (h2 : run u s1 ls = some s') : ∀ r, (i, r) ∉ s'.status :=
   withdrawn_stays_from ls s1 s' (exit_interrupts_sleep h1).1 (withdraw_on_exit h1).1 hall h2
+
+/-! ## convergence is always possible -/
+
+/-- From ANY state — reachable or not, whatever old views, ghosts, lost exits and expired records it contains — with the
+    running operators configured with `lifetime ≥ 1` and distinct priorities (`ids` merely names them), there is a
+    schedule after which the operators see each other and exactly the top one is active: let every record that is there
+    expire, let every running operator touch, let every running operator process the status. (Possibility, not
+    inevitability: nothing forces the environment to be that kind — see `stale_view_two_active_witness`.) -/
+theorem convergence_possible {u : Int} {s : State} (hu : 0 < u) (ids : List Identity)
+    (hcov : ∀ i o, s.ops i = some o → o.alive = true → i ∈ ids)
+    (hL : ∀ i o, s.ops i = some o → o.alive = true → 1 ≤ o.lifetime)
+    (hdist : ∀ i j oi oj, s.ops i = some oi → s.ops j = some oj → oi.alive = true → oj.alive = true →
+      oi.prio = oj.prio → i = j) :
+    ∃ ls s', run u s ls = some s' ∧ ExactlyTop s' ∧ Good u s' := by
+  let js := ids.filter (fun i => match s.ops i with | some o => o.alive | none => false)
+  have hjs : ∀ j, j ∈ js ↔ j ∈ ids ∧ ∃ o, s.ops j = some o ∧ o.alive = true := by
+    intro j
+    simp only [js, List.mem_filter]
+    constructor
+    · rintro ⟨h1, h2⟩
+      cases ho : s.ops j with
+      | none => simp [ho] at h2
+      | some o => simp [ho] at h2; exact ⟨h1, o, rfl, h2⟩
+    · rintro ⟨h1, o, ho, ha⟩
+      exact ⟨h1, by simp [ho, ha]⟩
+  obtain ⟨d, hd⟩ := exists_tick_all_dead u s.now s.status
+  let s1 : State := { s with now := s.now + d }
+  have h1 : step u s (.tick d) = some s1 := rfl
+  have hall1 : ∀ j ∈ js, ∃ o, s1.ops j = some o ∧ o.alive = true ∧ 1 ≤ o.lifetime := by
+    intro j hj
+    obtain ⟨_, o, ho, ha⟩ := (hjs j).mp hj
+    exact ⟨o, ho, ha, hL j o ho ha⟩
+  obtain ⟨s2, h2, hnow2, heq2, hrec2⟩ := run_keepalives hu js s1 hall1
+  -- who runs in s2 runs in s, same priority and lifetime
+  have back : ∀ i o2, s2.ops i = some o2 → ∃ o, s.ops i = some o ∧ o2.prio = o.prio ∧ o2.lifetime = o.lifetime ∧ o2.alive = o.alive := by
+    intro i o2 h
+    rcases heq2 i with ⟨_, y⟩ | ⟨a, a', ha, ha', hp, hl, hal⟩
+    · rw [y] at h; cases h
+    · rw [ha'] at h; injection h with e; subst e
+      exact ⟨a, ha, hp, hl, hal⟩
+  have fwd : ∀ i o, s.ops i = some o → ∃ o2, s2.ops i = some o2 ∧ o2.prio = o.prio ∧ o2.lifetime = o.lifetime ∧ o2.alive = o.alive := by
+    intro i o h
+    rcases heq2 i with ⟨x, _⟩ | ⟨a, a', ha, ha', hp, hl, hal⟩
+    · have : s.ops i = none := x
+      rw [this] at h; cases h
+    · have ha0 : s.ops i = some a := ha
+      rw [ha0] at h; injection h with e; subst e
+      exact ⟨a', ha', hp, hl, hal⟩
+  have hg2 : Good u s2 := by
+    constructor
+    · intro i o2 hi ha
+      obtain ⟨o, ho, hp, hl, hal⟩ := back i o2 hi
+      have hoa : o.alive = true := by rw [← hal]; exact ha
+      have hij : i ∈ js := (hjs i).mpr ⟨hcov i o ho hoa, o, ho, hoa⟩
+      refine ⟨{ priority := o.prio, lifetime := o.lifetime, lastseen := s1.now }, (hrec2 i _).mpr (Or.inl ⟨hij, o, ho, rfl⟩), hp.symm, ?_⟩
+      rw [dead_false_iff, hnow2]
+      have : 0 < o.lifetime * u := Int.mul_pos (by have := hL i o ho hoa; omega) hu
+      show s1.now < s1.now + o.lifetime * u
+      omega
+    · intro j r hm hlive
+      rcases (hrec2 j r).mp hm with ⟨hj, o, ho, hr⟩ | ⟨hm1, _⟩
+      · obtain ⟨_, o', ho', ha'⟩ := (hjs j).mp hj
+        have ho0 : s.ops j = some o := ho
+        rw [ho0] at ho'; injection ho' with e; subst e
+        obtain ⟨o2, ho2, hp, _, hal⟩ := fwd j o ho0
+        exact ⟨o2, ho2, by rw [hal]; exact ha', by rw [hr, hp]⟩
+      · have := hd (j, r) hm1
+        rw [hnow2] at hlive
+        have e : s1.now = s.now + d := rfl
+        rw [e, this] at hlive
+        cases hlive
+    · intro i j oi oj hi hj hai haj hp
+      obtain ⟨a, ha, hpa, _, hala⟩ := back i oi hi
+      obtain ⟨b, hb, hpb, _, halb⟩ := back j oj hj
+      exact hdist i j a b ha hb (by rw [← hala]; exact hai) (by rw [← halb]; exact haj) (by omega)
+  have hall2 : ∀ j ∈ js, ∃ o, s2.ops j = some o ∧ o.alive = true := by
+    intro j hj
+    obtain ⟨_, o, ho, ha⟩ := (hjs j).mp hj
+    obtain ⟨o2, ho2, _, _, hal⟩ := fwd j o ho
+    exact ⟨o2, ho2, by rw [hal]; exact ha⟩
+  obtain ⟨s3, h3⟩ := run_delivers_enabled js s2 hall2
+  have hres := settle hg2 (js.map Label.deliver)
+    (fun l hl => by obtain ⟨j, _, rfl⟩ := List.mem_map.mp hl; exact ⟨j, rfl⟩)
+    (fun i o2 hi ha => by
+      obtain ⟨o, ho, _, _, hal⟩ := back i o2 hi
+      have hoa : o.alive = true := by rw [← hal]; exact ha
+      exact List.mem_map.mpr ⟨i, (hjs i).mpr ⟨hcov i o ho hoa, o, ho, hoa⟩, rfl⟩) h3
+  refine ⟨[.tick d] ++ js.map (fun j => Label.keepalive j 0) ++ js.map Label.deliver, s3, ?_, hres.1, hres.2⟩
+  rw [run_append, run_append]
+  simp only [List.singleton_append, run, h1, Option.bind]
+  rw [h2]
+  exact h3
+
+/-! ## non-vacuity: every theorem with hypotheses is instantiated on a concrete, non-trivial, reachable state -/
+
+def exA : Rec := { priority := 100, lifetime := 10, lastseen := 0 }
+def exB : Rec := { priority := 10, lifetime := 8, lastseen := 0 }
+
+/-- two operators, both started, touched and delivered: a reachable stable state with A active, B paused. -/
+def exRun : List Label :=
+  [.start "A" 100 10, .start "B" 10 8, .keepalive "A" 0, .keepalive "B" 0, .deliver "A", .deliver "B"]
+def exStable : Option State := run 64 init exRun
+
+example : (exStable.map (fun s => (s.status, (s.ops "A").map (·.paused), (s.ops "B").map (·.paused)))) =
+    some ([("A", exA), ("B", exB)], some false, some true) := by decide
+
+private def opA : Op := { prio := 100, lifetime := 10, alive := true, paused := false, seen := some (2, 0), nextKA := some 320 }
+private def opB : Op := { prio := 10, lifetime := 8, alive := true, paused := true, seen := some (2, 0), sleeping := true, nextKA := some 192 }
+
+/-- unfold a concrete run into its explicit end state -/
+local macro "unfold_run" h:ident : tactic => `(tactic|
+  simp [exStable, exRun, run, step, init, updOp, touchVal, Rec.dead, Rec.deadline, Status.patch, Status.set, Status.erase,
+    Status.eraseAll, marginT, margin, decideCore, Status.peers, Rec.toPeer, livePeers, deadPeers, prioPeers, samePeers,
+    Peer.isDead, Peer.deadline, minList] at $h:ident)
+
+private theorem exStable_shape : ∀ s, exStable = some s →
+    s.now = 0 ∧ s.ver = 2 ∧ s.status = [("A", exA), ("B", exB)] ∧ s.ops "A" = some opA ∧ s.ops "B" = some opB ∧
+    ∀ i o, s.ops i = some o → (i = "A" ∧ o = opA) ∨ (i = "B" ∧ o = opB) := by
+  intro s h
+  unfold_run h
+  subst h
+  refine ⟨rfl, rfl, rfl, ?_, ?_, ?_⟩
+  · simp [updOp, opA]; decide
+  · simp [updOp, opB]; decide
+  · refine ops_of_two (a := "A") (b := "B") (by simp [updOp, opA]; decide) (by simp [updOp, opB]; decide) ?_
+    intro i h1 h2
+    simp [updOp, h1, h2]
+
+private theorem exStable_stable : ∀ s, exStable = some s → Stable 64 s := by
+  intro s h
+  obtain ⟨hnow, hver, hst, hA, hB, hops⟩ := exStable_shape s h
+  refine ⟨⟨?_, ?_, ?_⟩, ?_⟩
+  · intro i op hi _
+    rcases hops i op hi with ⟨rfl, rfl⟩ | ⟨rfl, rfl⟩
+    · exact ⟨exA, by rw [hst]; simp, rfl, by rw [hnow]; decide⟩
+    · exact ⟨exB, by rw [hst]; simp, rfl, by rw [hnow]; decide⟩
+  · intro j r hm _
+    rw [hst] at hm
+    simp only [List.mem_cons, Prod.mk.injEq, List.mem_nil_iff, or_false] at hm
+    rcases hm with ⟨rfl, rfl⟩ | ⟨rfl, rfl⟩
+    · exact ⟨opA, hA, rfl, rfl⟩
+    · exact ⟨opB, hB, rfl, rfl⟩
+  · intro i j oi oj hi hj _ _ hp
+    rcases hops i oi hi with ⟨rfl, rfl⟩ | ⟨rfl, rfl⟩ <;> rcases hops j oj hj with ⟨rfl, rfl⟩ | ⟨rfl, rfl⟩ <;>
+      first | rfl | (exfalso; revert hp; decide)
+  · intro i op hi _
+    rcases hops i op hi with ⟨rfl, rfl⟩ | ⟨rfl, rfl⟩ <;> exact ⟨0, by rw [hver]; rfl, fun _ _ _ => by rw [hnow]⟩
+
+/-- `exactly_top_partial`, `at_most_one_active_partial`, `own_record_fresh` are not vacuous: the state reached by two
+    starts, two keep-alives and two deliveries is reachable, timely (API calls ≤ 2 ticks), stable; there A (priority 100)
+    is active while B (priority 10) is paused, and both have a live own record. -/
+example : ∃ s, exStable = some s ∧ Reachable 64 s ∧ Timely 64 2 s ∧ Stable 64 s ∧ ExactlyTop s ∧
+    (∀ i o k, s.ops i = some o → o.alive = true → o.nextKA = some k →
+      ∃ r, (i, r) ∈ s.status ∧ r.priority = o.prio ∧ r.dead 64 s.now = false) := by
+  cases h : exStable with
+  | none => exact absurd h (by decide)
+  | some s =>
+    have ht : Timely 64 2 s := timely_run_static exRun init s Timely.init (by decide) h
+    have hr := timely_reachable ht
+    exact ⟨s, rfl, hr, ht, exStable_stable s h, exactly_top_partial hr (exStable_stable s h),
+      fun i o k ho ha hk => own_record_fresh (by decide) (by decide) ht ho ha hk⟩
+
+/-- `failover_exit_partial` / `settle_partial` instantiated: from that state A exits, B processes the status, B is active. -/
+example : ∃ s s1 s2, exStable = some s ∧ step 64 s (.exit "A") = some s1 ∧ run 64 s1 [.deliver "B"] = some s2 ∧
+    ExactlyTop s2 ∧ (s2.ops "B").map (·.paused) = some false := by
+  cases h : exStable with
+  | none => exact absurd h (by decide)
+  | some s =>
+    obtain ⟨_, _, _, _, _, hops⟩ := exStable_shape s h
+    have hg := (exStable_stable s h).good
+    have hA : ∃ s1, step 64 s (.exit "A") = some s1 := by
+      cases h1 : step 64 s (.exit "A") with
+      | some s1 => exact ⟨s1, rfl⟩
+      | none =>
+        exfalso
+        have : ((exStable.bind (fun s => step 64 s (.exit "A"))).isSome) = true := by decide
+        rw [h] at this; simp [h1] at this
+    obtain ⟨s1, h1⟩ := hA
+    have hB : ∃ s2, run 64 s1 [.deliver "B"] = some s2 := by
+      cases h2 : run 64 s1 [.deliver "B"] with
+      | some s2 => exact ⟨s2, rfl⟩
+      | none =>
+        exfalso
+        have : ((exStable.bind (fun s => (step 64 s (.exit "A")).bind (fun s1 => run 64 s1 [.deliver "B"]))).isSome) = true := by decide
+        rw [h] at this; simp [h1, h2] at this
+    obtain ⟨s2, h2⟩ := hB
+    have hcov : ∀ i op, s1.ops i = some op → op.alive = true → Label.deliver i ∈ [Label.deliver "B"] := by
+      intro i op hi ha
+      obtain ⟨o, ho, _, _, _, hops1⟩ := exit_spec h1
+      rw [hops1] at hi
+      by_cases hiA : i = "A"
+      · subst hiA; simp at hi; subst hi; simp at ha
+      · rw [updOp_other _ _ hiA] at hi
+        rcases hops i op hi with ⟨e, _⟩ | ⟨e, _⟩
+        · exact absurd e hiA
+        · subst e; simp
+    have hres := failover_exit_partial hg h1 [.deliver "B"] (fun l hl => by simp at hl; exact ⟨"B", hl⟩) hcov h2
+    refine ⟨s, s1, s2, rfl, h1, h2, hres.1, ?_⟩
+    have : ((exStable.bind (fun s => (step 64 s (.exit "A")).bind (fun s1 => run 64 s1 [.deliver "B"]))).map
+        (fun s => (s.ops "B").map (·.paused))) = some (some false) := by decide
+    rw [h] at this
+    simpa [h1, h2] using this
+
+/-- `resume_after_expiry` instantiated: A (top) is killed while B's call sleeps towards A's deadline; every peer blocking B
+    is a record of A; after `expire "A"` the call wakes, its touch lands one tick late, the event is delivered, B is active. -/
+example : ∃ s s1 s2 s3 o3, run 64 init [.start "A" 100 2, .start "B" 10 10, .keepalive "A" 0, .keepalive "B" 0, .deliver "B", .kill "A"] = some s ∧
+    step 64 s (.expire "A") = some s1 ∧ step 64 s1 (.wake "B" 1) = some s2 ∧ step 64 s2 (.deliver "B") = some s3 ∧
+    s3.ops "B" = some o3 ∧ o3.alive = true ∧ o3.paused = false := by
+  cases h : run 64 init [.start "A" 100 2, .start "B" 10 10, .keepalive "A" 0, .keepalive "B" 0, .deliver "B", .kill "A"] with
+  | none => exact absurd h (by decide)
+  | some s =>
+    have fB : (run 64 init [.start "A" 100 2, .start "B" 10 10, .keepalive "A" 0, .keepalive "B" 0, .deliver "B", .kill "A"]).map
+        (fun s => (s.ops "B").map (fun o => (o.alive, o.sleeping, o.prio))) = some (some (true, true, 10)) := by decide
+    have fS : (run 64 init [.start "A" 100 2, .start "B" 10 10, .keepalive "A" 0, .keepalive "B" 0, .deliver "B", .kill "A"]).map
+        (·.status) = some [("A", ⟨100, 2, 0⟩), ("B", ⟨10, 10, 0⟩)] := by decide
+    rw [h] at fB fS
+    simp only [Option.map_some, Option.some.injEq] at fB fS
+    cases hB : s.ops "B" with
+    | none => simp [hB] at fB
+    | some o =>
+      simp only [hB, Option.map_some, Option.some.injEq, Prod.mk.injEq] at fB
+      obtain ⟨hal, hsl, hp⟩ := fB
+      have h1 : ∃ s1, step 64 s (.expire "A") = some s1 := ⟨_, rfl⟩
+      obtain ⟨s1, h1⟩ := h1
+      obtain ⟨s2, s3, o3, h2, h3, h4, h5, h6⟩ := resume_after_expiry (a := "A") 1 hB hal hsl (by
+        intro j r hm hj _ _
+        rw [fS] at hm
+        simp only [List.mem_cons, Prod.mk.injEq, List.mem_nil_iff, or_false] at hm
+        rcases hm with ⟨rfl, _⟩ | ⟨rfl, _⟩
+        · rfl
+        · exact absurd rfl hj) h1
+      exact ⟨s, s1, s2, s3, o3, rfl, h1, h2, h3, h4, h5, h6⟩
+
+/-- `convergence_possible` instantiated on the bad end state of `stale_view_two_active_witness` (A and B both active, A
+    without a record): its hypotheses hold there, so a schedule exists after which exactly the top one is active. -/
+example : ∃ s, run 64 init [.start "A" 100 2, .start "B" 10 10, .keepalive "A" 0, .keepalive "B" 0, .deliver "A", .deliver "B",
+      .tick 64, .keepalive "A" 0, .tick 64, .deliverStale "B" [("A", ⟨100, 2, 0⟩), ("B", ⟨10, 10, 0⟩)]] = some s ∧
+    ∃ ls s', run 64 s ls = some s' ∧ ExactlyTop s' ∧ Good 64 s' := by
+  cases h : run 64 init [.start "A" 100 2, .start "B" 10 10, .keepalive "A" 0, .keepalive "B" 0, .deliver "A", .deliver "B",
+      .tick 64, .keepalive "A" 0, .tick 64, .deliverStale "B" [("A", ⟨100, 2, 0⟩), ("B", ⟨10, 10, 0⟩)]] with
+  | none => exact absurd h (by decide)
+  | some s =>
+    refine ⟨s, rfl, ?_⟩
+    have f : (run 64 init [.start "A" 100 2, .start "B" 10 10, .keepalive "A" 0, .keepalive "B" 0, .deliver "A", .deliver "B",
+        .tick 64, .keepalive "A" 0, .tick 64, .deliverStale "B" [("A", ⟨100, 2, 0⟩), ("B", ⟨10, 10, 0⟩)]]).map
+        (fun s => ((s.ops "A").map (fun o => (o.prio, o.lifetime)), (s.ops "B").map (fun o => (o.prio, o.lifetime)))) =
+        some (some (100, 2), some (10, 10)) := by decide
+    rw [h] at f
+    simp only [Option.map_some, Option.some.injEq, Prod.mk.injEq] at f
+    have hn : ∀ i, i ≠ "A" → i ≠ "B" → s.ops i = none := by
+      intro i h1 h2
+      refine ops_none_of_not_started _ init s rfl ?_ h
+      intro l hl p L e
+      rw [e] at hl
+      simp at hl
+      rcases hl with ⟨rfl, _⟩ | ⟨rfl, _⟩ <;> contradiction
+    cases hA : s.ops "A" with
+    | none => simp [hA] at f
+    | some oa =>
+      cases hB : s.ops "B" with
+      | none => simp [hB] at f
+      | some ob =>
+        simp only [hA, hB, Option.map_some, Option.some.injEq, Prod.mk.injEq] at f
+        obtain ⟨⟨hpa, hla⟩, hpb, hlb⟩ := f
+        have hops := ops_of_two hA hB hn
+        refine convergence_possible (by decide) ["A", "B"] ?_ ?_ ?_
+        · intro i o hi _
+          rcases hops i o hi with ⟨rfl, _⟩ | ⟨rfl, _⟩ <;> simp
+        · intro i o hi _
+          rcases hops i o hi with ⟨rfl, rfl⟩ | ⟨rfl, rfl⟩ <;> omega
+        · intro i j oi oj hi hj _ _ hp
+          rcases hops i oi hi with ⟨rfl, rfl⟩ | ⟨rfl, rfl⟩ <;> rcases hops j oj hj with ⟨rfl, rfl⟩ | ⟨rfl, rfl⟩ <;>
+            first | rfl | (exfalso; omega)
+
+-- `equal_priority_both_paused`: two operators of priority 10, both delivered, both paused (concretely)
+example : ((run 64 init [.start "A" 10 10, .start "B" 10 10, .keepalive "A" 0, .keepalive "B" 0, .deliver "A", .deliver "B"]).map
+    (fun s => ((s.ops "A").map (·.paused), (s.ops "B").map (·.paused)))) = some (some true, some true) := by decide
+
+example : decideEv 64 [("A", .record { priority := some (.num 100), lifetime := none, lastseen := .at 0, identityKey := false }),
+                      ("G", .record { priority := some (.num 500), lifetime := some (.num 1), lastseen := .at 0, identityKey := false }),
+                      ("B", .record { priority := some (.num 10), lifetime := some (.num 8), lastseen := .at 64, identityKey := false })]
+          "B" 10 true (some false) 128 129
+        = .ok { cleaned := ["G"], turned := some true, paused := some true, delays := [60 * 64 - 129],
+                sleep := some (60 * 64 - 129), touch := true } := by decide
+
+-- garbled records make the call raise (and `paused_iff` is then silent)
+example : decideEv 64 [("X", .record { priority := none, lifetime := some (.str "soon"), lastseen := .absent, identityKey := false })]
+          "B" 10 true (some false) 128 128 = .error .valueError := by decide
+example : decideEv 64 [("X", .record { priority := some (.str "high"), lifetime := none, lastseen := .absent, identityKey := false })]
+          "B" 10 true (some false) 128 128 = .error .typeError := by decide
+
+
+-- failover by kill + expiry + self-touch + delivery, concretely (an instance of the LTS; its last two steps are an instance of
+-- `resume_after_expiry` with a := "A", i := "B")
+example : ((run 64 init [.start "A" 100 10, .start "B" 10 8, .keepalive "A" 0, .keepalive "B" 0, .deliver "A", .deliver "B",
+                         .kill "A", .tick 400, .keepalive "B" 0, .expire "A", .wake "B" 1, .deliver "B"]).map
+            (fun s => (s.now, s.status.map (·.1), (s.ops "B").map (·.paused)))) = some (640, ["B"], some false) := by decide
+
+-- an exit whose withdrawal is lost leaves the record (what `kill` does); the peers are freed by its expiry only
+example : ((run 64 init [.start "A" 100 2, .start "B" 10 10, .keepalive "A" 0, .keepalive "B" 0, .deliver "B", .exitLost "A", .deliver "B"]).map
+    (fun s => ((s.ops "A").map (·.alive), s.status.map (·.1), (s.ops "B").map (·.paused)))) = some (some false, ["A", "B"], some true) := by decide
+example : ((run 64 init [.start "A" 100 2, .start "B" 10 10, .keepalive "A" 0, .keepalive "B" 0, .deliver "B", .exitLost "A",
+                         .expire "A", .wake "B" 0, .deliver "B"]).map
+    (fun s => (s.status.map (·.1), (s.ops "B").map (·.paused)))) = some (["B"], some false) := by decide
+
+-- the schedule that used to put B's record back after B's exit (finding F2) is not a run of the system any more
+example : (run 64 init [.start "A" 100 2, .start "B" 10 10, .keepalive "A" 0, .keepalive "B" 0, .deliver "B", .exit "B",
+                        .tick 64, .wake "B" 0]).isSome = false := by decide
+
+-- `withdrawn_stays` applies to an operator that exits WHILE its call sleeps towards a blocker's deadline
+example : ((run 64 init [.start "A" 100 2, .start "B" 10 10, .keepalive "A" 0, .keepalive "B" 0, .deliver "B"]).map
+    (fun s => (s.ops "B").map (fun o => (o.alive, o.sleeping)))) = some (some (true, true)) := by decide
+example : ((run 64 init [.start "A" 100 2, .start "B" 10 10, .keepalive "A" 0, .keepalive "B" 0, .deliver "B", .exit "B", .tick 64]).map
+    (fun s => ((s.ops "B").map (fun o => (o.alive, o.sleeping)), s.status.map (·.1)))) = some (some (false, false), ["A"]) := by decide
+
+-- renewal hypotheses are satisfiable: lifetime 2, API calls of one tick (1/64 s)
+example : Renewed 64 2 0 [⟨2, 1, 5⟩, ⟨2, 1, 10⟩, ⟨2, 1, 7⟩] :=
+  renewal 64 2 2 (by decide) (by decide) (by decide) _ 0 (by
+    intro r hr
+    simp only [List.mem_cons, List.mem_nil_iff, or_false] at hr
+    rcases hr with rfl | rfl | rfl <;> decide)
+
+-- the lifetime = 1 corner, concretely: half-second periods, API calls of one tick: renewed, three rounds
+example : Renewed 64 1 0 [⟨2, 1, 5⟩, ⟨2, 1, 10⟩, ⟨2, 1, 7⟩] :=
+  renewal 64 1 2 (by decide) (by decide) (by decide) _ 0 (by
+    intro r hr
+    simp only [List.mem_cons, List.mem_nil_iff, or_false] at hr
+    rcases hr with rfl | rfl | rfl <;> decide)
+
+-- the own dead record stays, a dead record of somebody else goes
+example : decideEv 64 [("B", .record { priority := some (.num 10), lifetime := some (.num 1), lastseen := .at 0, identityKey := false }),
+                      ("G", .record { priority := some (.num 500), lifetime := some (.num 1), lastseen := .at 0, identityKey := false })]
+          "B" 10 true (some true) 128 129
+        = .ok { cleaned := ["G"], turned := some false, paused := some false, delays := [], sleep := none, touch := false } := by decide
 
 end Kopf.C13
